@@ -27,10 +27,13 @@ Proof.
   destruct err; [reflexivity|]. destruct (0 <? n); [reflexivity|]. rewrite IH. reflexivity.
 Qed.
 
+Lemma some_inj_gen : forall (A : Type) (x y : A), Some x = Some y -> x = y.
+Proof. intros A x y H. inversion H. reflexivity. Qed.
+
 Lemma bfill_term : forall b b', bfill b = Some b' -> term b' = term b.
 Proof.
   intros b b' H. unfold bfill in H. destruct (bsize b <=? blen b); [discriminate|].
-  injection H as <-. apply fill_loop_term.
+  apply some_inj_gen in H. rewrite <- H. apply fill_loop_term.
 Qed.
 
 Lemma peek_loop_term : forall fuel b n b', peek_loop fuel b n = Some b' -> term b' = term b.
@@ -42,13 +45,19 @@ Proof.
   - injection H as <-. reflexivity.
 Qed.
 
+Lemma bPeek_term_goal : forall b n,
+  match bPeek b n with Some (_, _, _, b') => term b' = term b | None => True end.
+Proof.
+  intros b n. unfold bPeek. generalize big_fuel. intros fuel.
+  destruct (peek_loop fuel b n) as [b1|] eqn:E; [|exact I].
+  pose proof (peek_loop_term _ _ _ _ E) as T.
+  destruct (bsize b1 <? n); [exact T|].
+  destruct (blen b1 <? n); exact T.
+Qed.
+
 Lemma bPeek_term : forall b n bytes cnt err b', bPeek b n = Some (bytes, cnt, err, b') -> term b' = term b.
 Proof.
-  intros b n bytes cnt err b' H. unfold bPeek in H.
-  destruct (peek_loop big_fuel b n) as [b1|] eqn:E; [|discriminate].
-  pose proof (peek_loop_term _ _ _ _ E) as T.
-  destruct (bsize b1 <? n); [injection H as _ _ _ <-; exact T|].
-  destruct (blen b1 <? n); injection H as _ _ _ <-; exact T.
+  intros b n bytes cnt err b' H. pose proof (bPeek_term_goal b n) as G. rewrite H in G. exact G.
 Qed.
 
 Lemma discard_loop_term : forall fuel b n o b', discard_loop fuel b n = Some (o, b') -> term b' = term b.
@@ -65,10 +74,18 @@ Proof.
     rewrite (IH _ _ _ _ H). reflexivity.
 Qed.
 
+Lemma bDiscard_term_goal : forall b n,
+  match bDiscard b n with Some (_, b') => term b' = term b | None => True end.
+Proof.
+  intros b n. unfold bDiscard. destruct (n =? 0); [reflexivity|].
+  generalize big_fuel. intros fuel.
+  destruct (discard_loop fuel b n) as [[o b']|] eqn:E; [|exact I].
+  apply (discard_loop_term _ _ _ _ _ E).
+Qed.
+
 Lemma bDiscard_term : forall b n o b', bDiscard b n = Some (o, b') -> term b' = term b.
 Proof.
-  intros b n o b' H. unfold bDiscard in H. destruct (n =? 0); [injection H as _ <-; reflexivity|].
-  apply (discard_loop_term _ _ _ _ _ H).
+  intros b n o b' H. pose proof (bDiscard_term_goal b n) as G. rewrite H in G. exact G.
 Qed.
 
 Lemma step_discard_term : forall f o f', step_discard f = Some (o, f') -> term (rBuf f') = term (rBuf f).
@@ -101,6 +118,14 @@ Proof.
     destruct (c2 <? _); cbn [fst rBuf]; [reflexivity|]. apply (bPeek_term _ _ _ _ _ _ E2).
 Qed.
 
+Lemma decomperss_rbuf : forall f, rBuf (fst (decomperss f)) = rBuf f.
+Proof.
+  intros f. unfold decomperss. generalize big_fuel. intros fuel.
+  destruct (decomp_loop fuel (state f) (hist f) (writePos f)) as [[[s h] idx] err].
+  destruct (negb (writeOverflowLen (ov s) =? 0));
+    match goal with |- context[if ?C then _ else _] => destruct C end; reflexivity.
+Qed.
+
 Lemma step_term : forall f, term (rBuf (fst (step f))) = term (rBuf f).
 Proof.
   intros f. rewrite step_eq. destruct (phase (state f) =? phaseFinish); [reflexivity|].
@@ -109,11 +134,8 @@ Proof.
   { intros f0. unfold step_decode.
     destruct (decomperss (step_slide f0)) as [f2 e] eqn:Ed.
     assert (Hr : rBuf f2 = rBuf f0).
-    { unfold decomperss in Ed. destruct (decomp_loop _ _ _ _) as [[[s h] idx] err].
-      destruct (negb (writeOverflowLen (ov s) =? 0));
-        match type of Ed with context[if ?C then _ else _] => destruct C end;
-        apply (f_equal fst) in Ed; cbn [fst] in Ed; rewrite <- Ed; cbn [rBuf];
-        unfold step_slide; destruct (historySize * 2 <=? writePos f0); reflexivity. }
+    { pose proof (decomperss_rbuf (step_slide f0)) as Hq. rewrite Ed in Hq. cbn [fst] in Hq.
+      rewrite Hq. unfold step_slide. destruct (historySize * 2 <=? writePos f0); reflexivity. }
     cbn [set_state state writePos readPos hist rBuf derr peekSize eof haveBits].
     set (f3 := mkD _ _ _ _ (rBuf f2) _ _ _ _).
     assert (H3 : term (rBuf f3) = term (rBuf f0)) by (unfold f3; cbn [rBuf]; rewrite Hr; reflexivity).
@@ -344,7 +366,7 @@ Proof.
   - intros _. split; [exact Hdec|].
     unfold flags_inv, newReader. cbn [eof haveBits state rBuf inputNil inflate0 rd br0 r_len].
     split; [intros Hc; discriminate Hc|].
-    intros _ _ Hs. cbn in Hs. rewrite B2, Hcs in Hs. subst data.
+    intros _ _ Hs. rewrite B2, Hcs in Hs. cbn in Hs. subst data.
     vm_compute. discriminate.
   - reflexivity.
   - intros e He. discriminate He.
